@@ -1081,7 +1081,8 @@ class ChoiceMap(Pytree):
 
         for addr, v in pairs:
             addr = addr if isinstance(addr, tuple) else (addr,)
-            acc |= ChoiceMap.entry(v, *addr)
+            # later pairs take precedence over earlier ones
+            acc = ChoiceMap.entry(v, *addr) | acc
 
         return acc
 
